@@ -186,7 +186,8 @@ def _run_case(tier, c, r, mod, h, out):
                 _viol(out, "c-json", "wrong_value", "lib/c/bitproto.c:json", c, lay,
                       "vec=%s C json=%s expected=%s" % (vec, ctext[:300], json.dumps(ref.tree_to_plain(expected))[:300]), "", vec)
             if not rc_ok:
-                _viol(out, "c-json", "wrong_length_returned", "lib/c/bitproto.c:json", c, lay, "Json%s() return value != strlen" % c.msg.name, "", vec)
+                _viol(out, "c-json", "wrong_length_returned", "lib/c/bitproto.c:json", c, lay,
+                      "Json%s() return value != strlen of the C string it wrote into a buffer that was not zeroed beforehand (missing terminator?): %r" % (c.msg.name, ctext[-60:]), "", vec)
             if cval is not None and pyval is not None and not same(cval, pyval) and same(expected, cval) == same(expected, pyval):
                 _viol(out, "interop", "py_c_json_differ", "json", c, lay, "python %s vs C %s" % (text[:200], ctext[:200]), "", vec)
             if first:
